@@ -60,6 +60,22 @@ CLAIMED = {
              "telescopes to total(end) - total(start), per well for plates (vector widths as hypothesis). Correspondence + independent eager ledger.",
              technique="Coq proof (telescoping over the snapshot trace using the per-step frame theorem); differential correspondence; independent ledger",
              design="5 C15"),
+ 'C11': dict(text="Theorems (all containers satisfying the invariant - binary or multi-component, solvent present or not, enzymes as bystanders - all "
+             "non-enzyme solvents, all numerator/denominator base-unit pairs, all targets): whenever dilute adds solvent, the solute's "
+             "concentration in the requested unit equals the target, only the solvent increased, name/capacity kept, invariant (capacity) holds; "
+             "the only other success is the unchanged container (required solvent rounds to zero); a target above the current concentration is "
+             "refused; fill_to reaches the target total in L / g / mol by adding only solvent and refuses a target below the current quantity. "
+             "Correspondence on histories ending in dilutions and fills; oracle reads the concentration / total back with exact fractions.",
+             technique="Coq proof over Q (field/nra); differential correspondence; read-back oracle",
+             design="5 C11"),
+ 'C14': dict(text="Theorems: 'v pU' parses to v x SI factor of p in base unit U for every prefix x base unit and every value; an accepted unit token "
+             "IS prefix ++ base unit and every other token is rejected with ValueError (for all strings, via suffix-stripping lemmas); the "
+             "prefix table of the source (regenerated each run) equals the model's, which equals SI; 'v pN/qD' and 'v pN/w qD' denote "
+             "v(/w) x factor(p)/factor(q) in N per D; M = mol/L and m = mol/kg with any prefix; percent forms are parts per hundred; "
+             "'1 M', '1 mmol/mL', '0.01 mmol/10 uL' parse to the same triple; malformed concentrations are rejected. The character level "
+             "(float(), blanks, '/') is exercised by the harness, not proved.",
+             technique="Coq proof (string suffix lemmas, finite case analysis over the prefix x unit table); translator tie for the prefix table; enumerated correspondence",
+             design="5 C14"),
  'C13': dict(text="Theorems (all plate sizes, label lists, selectors of the grammar): positions are 1-based and labels/integers interchangeable; "
              "'A:1', ('A','1'), (i,j) and one-element lists denote the same well; the iteration performed for a slice equals the documented "
              "comprehension (both ends included, open ends to the edge, every k-th for a positive step); lists keep their order; nothing "
